@@ -45,6 +45,9 @@ func (g *GTPv2) DecodeFromBytes(data []byte, df gopacket.DecodeFeedback) error {
 	g.MessagePriority = (data[0] >> 2) & 0x01
 	g.MessageType = data[1]
 	g.MessageLength = binary.BigEndian.Uint16(data[2:4])
+	// The TEID is only present with the T flag: a reused layer must not keep the
+	// TEID of an earlier packet.
+	g.TEID = 0
 
 	// All offsets are ints: with 16-bit arithmetic a 65535-byte packet wraps the
 	// index around and the IE loop below never terminates.
